@@ -32,6 +32,7 @@ import (
 
 func TestMain(m *testing.M) {
 	worker.Register("c19v2", v2Worker)
+	worker.Register("c19dag", dagSeqWorker)
 	worker.Main(m)
 }
 
@@ -120,7 +121,7 @@ func (h *harness) st(name string) *stats {
 // mediumCost lists the entry points whose calls take tens of milliseconds under the race detector (JSON-LD-free but several
 // parse/marshal round trips per call): their thorough tier gets fewer random inputs so that the tier stays within its budget.
 var mediumCost = map[string]bool{"pe.Match.hostileVC": true, "pe.Match.hostileJWTVC": true, "didjwk.Resolve": true, "pe.Envelope.Parse-Validate": true, "pe.Envelope.JWT-Validate": true,
-	"didnuts.document": true, "didweb.document": true, "pe.Definition.Unmarshal-Match": true, "pe.Definition.Parse-Match": true}
+	"didnuts.document": true, "didweb.document": true, "pe.Definition.Unmarshal-Match": true, "pe.Definition.Parse-Match": true, "pe.Grid.Match-Build-Validate": true}
 
 // budget returns (sweep cap, random inputs) for an entry of the given cost class.
 func (h *harness) budgetFor(name string, slow bool) (int, int) {
@@ -608,6 +609,10 @@ func TestCheck(t *testing.T) {
 	if part("v2") {
 		wg.Add(1)
 		go func() { defer wg.Done(); v2Protocol(h) }()
+	}
+	if part("dagseq") {
+		wg.Add(1)
+		go func() { defer wg.Done(); dagSequences(h) }()
 	}
 	if part("http") {
 		theNode(h) // booted here, not concurrently (configuration travels through the process environment)
